@@ -60,3 +60,44 @@ func genMain() {
 		fmt.Println(v, k)
 	}
 }
+
+// dbg faults: every fault kind in a few generated programs; lists faults that are not reliably rejected.
+func faultsMain() {
+	u := ref.NewUniverse()
+	for fi, f := range gen.Faults {
+		res := map[string]int{}
+		for k := 0; k < 6; k++ {
+			r := h.NewRand(1, 55, uint64(k))
+			g0 := r.Clone()
+			_ = g0
+			src, fault := progWithFault(r, f, k)
+			if fault == "" {
+				continue
+			}
+			o := drive.Build(u, []string{src}, drive.Opt{NoCompare: true})
+			st := o.Status
+			if o.SrcValid {
+				st = "FAULT-IS-VALID-GO"
+			} else if st == "accepted" {
+				if len(o.OutErrs) > 0 {
+					st = "ACCEPTED-ILLTYPED"
+				} else {
+					st = "accepted-output-ok"
+				}
+			} else if st == "fe" || st == "crash" {
+				st += ":" + o.Msg
+			}
+			res[st]++
+		}
+		fmt.Println(fi, f, res)
+	}
+}
+
+func progWithFault(r *h.Rand, fault string, k int) (string, string) {
+	fr := h.NewRand(3, uint64(k))
+	// force this fault: temporarily a one-element list
+	save := gen.Faults
+	gen.Faults = []string{fault, fault}
+	defer func() { gen.Faults = save }()
+	return gen.ProgramWithFault(r, 2, 3, 40, fr)
+}
